@@ -1,3 +1,5 @@
+//go:build verif
+
 // C16 — connection limits and connection states are never violated.
 //
 // Stateful property-based test of connstate.State: a generated history of AddPending /
@@ -661,14 +663,14 @@ func run(c Case) pbt.Verdict {
 func TestProp(t *testing.T) {
 	pbt.Main(t, pbt.Spec{
 		ID:   "C16",
-		Rule: "histories of <=45 operations (AddPending with a generated neighbour list, MovePendingToActive with a fresh or an older connection, DeletePending, DeleteActive with the current, an older or a never-activated connection of the same peer and torrent, closing a connection, Blacklist, ClearBlacklist, clock advances of 1-12 s against a blacklist duration of 2.5/5.5/10.5 s) over 2 torrents x 5 peers with MaxOpenConnectionsPerTorrent 1-4 and MaxMutualConnections 0(=no limit)-2, applied to the real connstate.State with real conn.Conn values (Handshaker.Accept/Establish over net.Pipe) on a controlled clock; a reference model (torrent,peer) -> none|pending|active(conn) plus blacklist expiry predicts every result: an accepted operation must be allowed by the model and every returned error must name a cause that is true in the model; after every step ActiveConns, Saturated, Blacklisted of every pair and the unexpired part of BlacklistSnapshot are compared with the model; at the end a fresh connection per pair probes the pending set; evaluations = steps + probes; non-trivial = the history contains at least two of: a refusal at capacity, a refusal for too many mutual connections, a DeleteActive of an older/never-active connection while a newer one is active; distinct by case hash",
+		Rule: "part state: histories of <=45 operations (AddPending with a generated neighbour list, MovePendingToActive with a fresh or an older connection, DeletePending, DeleteActive with the current, an older or a never-activated connection of the same peer and torrent, closing a connection, Blacklist, ClearBlacklist, clock advances of 1-12 s against a blacklist duration of 2.5/5.5/10.5 s) over 2 torrents x 5 peers with MaxOpenConnectionsPerTorrent 1-4 and MaxMutualConnections 0(=no limit)-2, applied to the real connstate.State with real conn.Conn values (Handshaker.Accept/Establish over net.Pipe) on a controlled clock; a reference model (torrent,peer) -> none|pending|active(conn) plus blacklist expiry predicts every result: an accepted operation must be allowed by the model and every returned error must name a cause that is true in the model; after every step ActiveConns, Saturated, Blacklisted of every pair and the unexpired part of BlacklistSnapshot are compared with the model; at the end a fresh connection per pair probes the pending set; evaluations = steps + probes; non-trivial = the history contains at least two of: a refusal at capacity, a refusal for too many mutual connections, a DeleteActive of an older/never-active connection while a newer one is active; distinct by case hash. part dial: an in-progress torrent in the owned scheduler harness with 1-4 peers that are real TCP listeners (accept and close, so each dial fails and the peer is blacklisted); generated announce responses and clock advances; a listed peer must be dialled iff it is not blacklisted at that time (listener accept counts), non-trivial = an announce lists a blacklisted peer",
 		Assumptions: []string{
 			"reference model of connection states written from the property statement and the doc comments of connstate.State",
 			"when several refusal causes apply to one AddPending/MovePendingToActive any of the applicable errors is accepted",
 			"the clock never stands exactly on a blacklist expiry instant (durations x.5 s, whole-second advances)",
 			"entries of BlacklistSnapshot with no remaining time are ignored",
-			"the scheduler-level clause (blacklisted peers are not dialled) is not exercised here; only State.Blacklisted, which the scheduler consults, is judged",
+			"part dial: the scheduler-level clause (blacklisted peers are not dialled) is exercised through the owned scheduler harness with real TCP listeners standing in for peers",
 		},
-		Parts: []pbt.Part{pbt.NewPart("state", 1, gen, run)},
+		Parts: []pbt.Part{pbt.NewPart("state", 12, gen, run), pbt.NewPart("dial", 1, genDial, runDial)},
 	})
 }
